@@ -84,6 +84,8 @@ void gmres_single(at::Tensor &solution, int &flag, int &nit, AMENsolveMV<T> &Op,
     betaA[0] = r_norm;
 
     int k;
+    // a Krylov space of a size x size system has at most size dimensions
+    if(iters > size) iters = size;
     for(k = 0; k<iters; k++){
         
        // std::cout <<"\n";
